@@ -1,19 +1,23 @@
 use crate::core::framework::Check;
 
 pub mod c02;
+pub mod c03;
 pub mod c04;
 pub mod c05;
 pub mod c06;
+pub mod c07;
 pub mod c17;
 
-pub const ALL: &[&str] = &["C02", "C04", "C05", "C06", "C17"];
+pub const ALL: &[&str] = &["C02", "C03", "C04", "C05", "C06", "C07", "C17"];
 
 pub fn make(id: &str) -> Option<Box<dyn Check>> {
     match id {
         "C02" => Some(Box::new(c02::C02)),
+        "C03" => Some(Box::new(c03::C03)),
         "C04" => Some(Box::new(c04::C04)),
         "C05" => Some(Box::new(c05::C05)),
         "C06" => Some(Box::new(c06::C06)),
+        "C07" => Some(Box::new(c07::C07)),
         "C17" => Some(Box::new(c17::C17::new())),
         _ => None,
     }
